@@ -428,12 +428,12 @@ func runJitter(c Case) M {
 	}()
 	select {
 	case <-done:
-	case <-time.After(20 * time.Second):
-		outcome = "hang: consumer script did not finish within 20s"
+	case <-time.After(120 * time.Second):
+		outcome = "hang: consumer script did not finish within 120s"
 	}
 	if outcome == "ok" {
 		// every goroutine the scanner started must be gone after Close
-		deadline := time.Now().Add(3 * time.Second)
+		deadline := time.Now().Add(30 * time.Second)
 		for {
 			buf := make([]byte, 1<<20)
 			st := string(buf[:runtime.Stack(buf, true)])
@@ -557,10 +557,10 @@ func runPlain(c Case) M {
 			}
 		}
 		return M{"case": c.Raw, "trace": []M{}, "run": run, "sched": []string{}, "diverged": ""}
-	case <-time.After(30 * time.Second):
+	case <-time.After(120 * time.Second):
 		return M{"case": c.Raw, "trace": []M{}, "sched": []string{}, "diverged": "",
 			"run": M{"cfg": M{"n": c.Cfg.N, "blocks": c.Cfg.Blocks, "endkind": c.Cfg.Endkind, "hdr": c.Cfg.Hdr}, "H": []M{}, "reads": 0, "rem": 0,
-				"outcome": "hang: scan did not end within 30s", "resume": []M{}}}
+				"outcome": "hang: scan did not end within 120s", "resume": []M{}}}
 	}
 }
 
